@@ -132,7 +132,8 @@ fn any_ipv4_cfg(protocol: Protocol, size: u16, ext: bool) -> Ipv4 {
         dest_addr: any_ipv4(),
         byte_order: platform::Ipv4ByteOrder::Network,
         packet_size: PacketSize(size),
-        payload_pattern: PayloadPattern(if option_env!("VERIF_THOROUGH").is_some() { kani::any() } else { 0xA5 }),
+        // symbolic pattern in the thorough tier, for the dispatch-content harnesses only (sizes up to 64)
+        payload_pattern: PayloadPattern(if option_env!("VERIF_THOROUGH").is_some() && size >= 28 && size <= 64 { kani::any() } else { 0xA5 }),
         privilege_mode: PrivilegeMode::Privileged,
         tos: TypeOfService(kani::any()),
         protocol,
@@ -592,29 +593,61 @@ fn c02_v4_extract_tcp() {
     extract_contract(Protocol::Tcp);
 }
 
-/// TCP handshake answers carry the probe's own ports and the target address (H02d).
+/// TCP handshake answers (H02d): whatever the connection attempt ends in, the synthetic response
+/// carries the probe's OWN ports and the target as quoted destination; connected => TcpReply from the
+/// peer, refused => TcpRefused from the target, host unreachable => TimeExceeded from the host the
+/// ICMP error came from; any other socket error => nothing.
 #[kani::proof]
-#[kani::unwind(3)]
+#[kani::unwind(20)]
 #[kani::stub(std::time::SystemTime::now, clock::now_stub)]
 fn c02_v4_recv_tcp_socket() {
     let ipv4 = any_ipv4_cfg(Protocol::Tcp, 28, false);
     let (sp, dp): (u16, u16) = kani::any();
-    let mut s = HSock;
-    // HSock::take_error returns None (connected) and peer_addr None => MissingAddr error value
-    let r = ipv4.recv_tcp_socket(&mut s, Port(sp), Port(dp));
-    assert!(matches!(r, Err(Error::MissingAddr)));
-    std::mem::forget(r);
-}
-
-/// Reset harness-side statics between native witness-search trials.
-fn verif_reset_statics() {
-    sock::reset();
+    let outcome: u8 = kani::any();
+    kani::assume(outcome <= 3);
+    let peer = SocketAddr::new(IpAddr::V4(any_ipv4()), kani::any());
+    let has_peer: bool = kani::any();
+    let err_addr = IpAddr::V4(any_ipv4());
     unsafe {
-        EXPECT.active = false;
-        SENT_UDP_CHECKSUM = 0;
-        SENT_LEN = 0;
+        sockstate::TAKE_ERROR = outcome;
+        sockstate::PEER_ADDR = if has_peer { Some(peer) } else { None };
+        sockstate::ICMP_ERROR_ADDR = Some(err_addr);
     }
-    clock::set(0, 0, 0);
+    let now_s: u32 = kani::any();
+    clock::set(0, u64::from(now_s), 0);
+    clock::set(1, u64::from(now_s), 0);
+    clock::set(2, u64::from(now_s), 0);
+    let mut s = HSock;
+    let r = ipv4.recv_tcp_socket(&mut s, Port(sp), Port(dp));
+    let target = IpAddr::V4(ipv4.dest_addr);
+    let check_proto = |d: &ResponseData| match &d.proto_resp {
+        ProtocolResponse::Tcp(t) => {
+            assert!(t.src_port == sp && t.dest_port == dp, "the probe's own ports");
+            assert!(t.dest_addr == target, "quoted destination = target");
+        }
+        _ => assert!(false, "TCP payload"),
+    };
+    match (outcome, has_peer, &r) {
+        (0, true, Ok(Some(Response::TcpReply(d)))) => {
+            check_proto(d);
+            assert!(d.addr == peer.ip() && d.recv == clock::mk(u64::from(now_s), 0));
+            assert!(unsafe { sockstate::SHUTDOWN_CALLS } == 1);
+        }
+        (0, false, Err(Error::MissingAddr)) => {}
+        (1, _, Ok(Some(Response::TcpRefused(d)))) => {
+            check_proto(d);
+            assert!(d.addr == target);
+        }
+        (2, _, Ok(Some(Response::TimeExceeded(d, code, None)))) => {
+            check_proto(d);
+            assert!(d.addr == err_addr && code.0 == 1);
+        }
+        (3, _, Ok(None)) => {}
+        _ => assert!(false, "handshake outcome mapping"),
+    }
+    kani::cover!(matches!(r, Ok(Some(Response::TcpReply(_)))), "connected");
+    kani::cover!(matches!(r, Ok(Some(Response::TimeExceeded(..)))), "host unreachable");
+    std::mem::forget(r);
 }
 
 // =========================================================================== C14: trippy-core's conversions
